@@ -525,6 +525,15 @@ func (s *Source) Ack(ctx context.Context, p []opencdc.Position) error {
 		return cerrors.Errorf("source stream not open: %w", connectorPlugin.ErrStreamNotOpen)
 	}
 
+	// Never accept an empty position: the last one becomes State.Position
+	// below and would overwrite the stored position of this source with
+	// nothing, so that the next start reads everything from the beginning.
+	for i, pos := range p {
+		if len(pos) == 0 {
+			return cerrors.Errorf("refusing to ack an empty position (index %d of %d): it would erase the stored position of source %s", i, len(p), s.Instance.ID)
+		}
+	}
+
 	// lock as we are updating the state and leave it locked so the persister
 	// can safely prepare the connector before it stores it
 	s.Instance.Lock()
